@@ -192,8 +192,7 @@ class C19(core.Check):
             texts = CORPUS if self.tier == 'thorough' else rng.sample(CORPUS, 3)
             for tx in texts:
                 cases.append(dict(tag=tag, prop=prop, state=['html', tx]))
-            if self.tier == 'thorough' or rng.random() < 0.3:
-                cases.append(dict(tag=tag, prop=prop, state=['html', None]))
+            cases.append(dict(tag=tag, prop=prop, state=['html', None]))      # the value-less spelling, for every cell in both tiers
             texts = CORPUS if self.tier == 'thorough' else rng.sample(CORPUS, 2)
             for tx in texts:
                 cases.append(dict(tag=tag, prop=prop, state=['dot', tx]))
